@@ -30,9 +30,58 @@ def lit_str(lits):
     return '; '.join('%s %s %s' % (x[0], fmt(x[1])[:60], sorted(x[2]) if x[0] == 'is' else '') for x in lits[:6])
 
 
-def r2_outcomes(ctx):
+def float_class_table(F, cb):
+    """{class: bool} for a closure |x| over one float, x in {finite, inf, nan}; None if it does anything besides is_infinite/is_nan/is_finite and boolean logic.
+    The closure's MIR is walked under each abstract input (absint); nothing is executed."""
+    from ..absint import Interp, Unknown
+    from ..mir import Callee
+    if cb is None:
+        return None
+
+    class FC(Interp):
+        def __init__(self, cls):
+            Interp.__init__(self, F, cb, {2: 'X'}, False, 0)
+            self.cls = cls
+
+        def call(self, t):
+            c = Callee(t['func'])
+            args = [self.operand(a) for a in t['args']]
+            if args and args[0] == 'X' and c.name in ('is_infinite', 'is_nan', 'is_finite'):
+                return {'is_infinite': self.cls == 'inf', 'is_nan': self.cls == 'nan', 'is_finite': self.cls == 'finite'}[c.name]
+            return Interp.call(self, t)
+
+    tab = {}
+    for cls in ('finite', 'inf', 'nan'):
+        try:
+            v = FC(cls).run()
+        except Unknown:
+            return None
+        if not isinstance(v, bool):
+            return None
+        tab[cls] = v
+    return tab
+
+
+def coordinate_guard(F, lits):
+    """what the guard literals say about the coordinates of the answer: 'all-finite', 'some-nonfinite' or None (nothing of that kind / not decidable)"""
+    for l in lits:
+        if l[0] in ('true', 'false') and is_call(l[1], 'Iterator::any', 'Iterator::all') and l[1][2][1][0] == 'closure':
+            tab = float_class_table(F, F.closure(l[1][2][1][1]))
+            if tab is None:
+                continue
+            q = l[1][1].split('::')[-1]
+            holds = l[0] == 'true'
+            # any(c) false  => every coordinate has c false;  all(c) true => every coordinate has c true
+            if (q == 'any' and not holds and tab['inf'] and tab['nan']) or (q == 'all' and holds and not tab['inf'] and not tab['nan']):
+                return 'all-finite'
+            # any(c) true => some coordinate has c true;  all(c) false => some coordinate has c false
+            if (q == 'any' and holds and not tab['finite']) or (q == 'all' and not holds and tab['finite']):
+                return 'some-nonfinite'
+    return None
+
+
+def r2_outcomes(ctx, rule='C10.R2'):
     F = ctx.facts
-    rule = 'C10.R2'
     b = ctx.body(rule, 'AffFuncBase::solve_linprog')
     if b is None:
         return
@@ -75,8 +124,11 @@ def r2_outcomes(ctx):
                 elif not ret_ok:
                     why = 'a coordinate is not the solver\'s value of its own variable (%s)' % (fmt(rets[0])[:80] if rets else '?')
         site = 'AffFuncBase::solve_linprog#build:Optimal'
-        if ok_arm and good:
-            ctx.ok(rule, site, 'Optimal only in the Ok arm, witness = (sol[var] for var in vars)', st['span'])
+        fin = coordinate_guard(F, lits) == 'all-finite'
+        if ok_arm and good and fin:
+            ctx.ok(rule, site, 'Optimal only in the Ok arm and only for an all-finite answer, witness = (sol[var] for var in vars)', st['span'])
+        elif ok_arm and good:
+            ctx.bad(rule, site, 'an Ok answer with an infinite or NaN coordinate can be returned as an Optimal witness (no all-finite guard: %s)' % lit_str(lits), st['span'])
         else:
             ctx.bad(rule, site, 'Optimal is produced outside the Ok arm of the back-end' if not ok_arm else why, st['span'])
     for bb_, i, j, st in prune.constructions(F, 'PolytopeStatus', 'Unbounded'):
@@ -91,17 +143,9 @@ def r2_outcomes(ctx):
         if err_arm:
             ctx.ok(rule, site, 'the back-end\'s Err(Unbounded)', st['span'])
             continue
-        good = False
-        why = 'Unbounded is produced for a solver outcome other than Err(Unbounded) / a non-finite answer (guards: %s)' % lit_str(lits)
-        if ok_arm:
-            for l in lits:
-                if l[0] == 'true' and is_call(l[1], 'Iterator::any') and l[1][2][1][0] == 'closure':
-                    cb = F.closure(l[1][2][1][1])
-                    bad = nonfinite_only(cb)
-                    if bad is None:
-                        good = True
-                    else:
-                        why = 'an Ok answer is reported as Unbounded for a finite coordinate: %s' % bad
+        good = ok_arm and coordinate_guard(F, lits) == 'some-nonfinite'
+        why = ('an Ok answer is reported as Unbounded although no coordinate is known to be infinite or NaN (guards: %s)' if ok_arm else
+               'Unbounded is produced for a solver outcome other than Err(Unbounded) / a non-finite answer (guards: %s)') % lit_str(lits)
         if good:
             ctx.ok(rule, site, 'Ok answer with a coordinate that is infinite or NaN', st['span'])
         else:
@@ -115,39 +159,6 @@ def r2_outcomes(ctx):
         for bb_, i, j, st in prune.constructions(F, 'PolytopeStatus', var):
             if bb_.qname != b.qname:
                 ctx.bad(rule, '%s#build:PolytopeStatus::%s' % (bb_.qname, var), 'a PolytopeStatus verdict is produced outside solve_linprog', st['span'])
-
-
-def nonfinite_only(cb):
-    """None if the closure |x| returns true only when x is infinite or NaN; otherwise a description."""
-    if cb is None:
-        return 'closure not found'
-    R = Resolver(cb)
-    arg = cb.arg_names()[-1]
-
-    def nonfinite_test(e):
-        return e[0] == 'call' and e[1] in ('f64::is_infinite', 'f64::is_nan', 'f32::is_infinite', 'f32::is_nan', 'Float::is_infinite', 'Float::is_nan') and e[2][0] == ('param', arg)
-
-    def finite_test(e):
-        return e[0] == 'call' and e[1] in ('f64::is_finite', 'Float::is_finite') and e[2][0] == ('param', arg)
-
-    tab = phi_table(cb, R, 0)
-    if not tab:
-        return 'no return value'
-    for v, lits, bb in tab:
-        if v == ('const', False):
-            continue
-        if nonfinite_test(v):
-            continue
-        if v[0] == 'un' and v[1] == 'Not' and finite_test(v[2]):
-            continue
-        if v == ('const', True):
-            if any((l[0] == 'true' and nonfinite_test(l[1])) or (l[0] == 'false' and finite_test(l[1])) for l in lits):
-                continue
-            return 'returns true under %s' % (lit_str(lits) or 'no guard')
-        if v[0] == 'phi' or v[0] == 'local':
-            continue  # join of the arms listed above
-        return 'returns %s' % fmt(v)[:80]
-    return None
 
 
 def r3_is_feasible(ctx):
